@@ -3,6 +3,8 @@ package cluster
 import (
 	"bytes"
 	"fmt"
+	"net/http"
+	"net/http/httptest"
 	"os"
 	"path/filepath"
 	"sort"
@@ -12,7 +14,9 @@ import (
 	"sync/atomic"
 	"time"
 
+	"github.com/bbva/qed/api/mgmthttp"
 	"github.com/bbva/qed/balloon"
+	qedcmd "github.com/bbva/qed/cmd"
 	"github.com/bbva/qed/crypto/hashing"
 	"github.com/bbva/qed/rocksdb"
 	"github.com/bbva/qed/storage/rocks"
@@ -20,6 +24,9 @@ import (
 	"qedverif/lib"
 	"qedverif/ref"
 )
+
+// the cobra command tree of `qed` is a process-wide singleton
+var cliMu sync.Mutex
 
 type c16case struct {
 	ID  string   `json:"id"`
@@ -214,6 +221,17 @@ func runC16(c *lib.Ctx, id string, seed uint64) {
 	nextID := int64(1)
 	nBackups := r.Range(3, 8)
 	taken := 0
+	mgmt := httptest.NewServer(mgmthttp.NewMgmtHttp(nd.N))
+	defer mgmt.Close()
+	httpDo := func(method, path string) int {
+		req, _ := http.NewRequest(method, mgmt.URL+path, nil)
+		resp, err := http.DefaultClient.Do(req)
+		if err != nil {
+			return -1
+		}
+		resp.Body.Close()
+		return resp.StatusCode
+	}
 	checkListing := func() {
 		infos := nd.N.ListBackups()
 		got := map[int64]string{}
@@ -271,7 +289,20 @@ func runC16(c *lib.Ctx, id string, seed uint64) {
 		case k == 8 && len(live) > 1:
 			x := r.Intn(len(live))
 			victim := live[x]
-			if err := nd.N.DeleteBackup(uint32(victim.id)); err != nil {
+			// a request naming an id that only matches an existing backup after truncation to 32 bits
+			// must not delete anything
+			other := live[(x+1)%len(live)]
+			if st := httpDo("DELETE", fmt.Sprintf("/backup?backupID=%d", uint64(other.id)+(uint64(1)<<32)*uint64(1+r.Intn(3)))); st >= 200 && st < 300 {
+				fail("delete-backup:id-beyond-32-bits-accepted", fmt.Sprintf("DELETE /backup with an id of %d + k*2^32 was accepted (status %d)", other.id, st))
+			}
+			cs.Ops = append(cs.Ops, fmt.Sprintf("delete#%d+k*2^32(must be refused)", other.id))
+			checkListing()
+			if r.Bool() {
+				if st := httpDo("DELETE", fmt.Sprintf("/backup?backupID=%d", victim.id)); st != 204 {
+					fail("delete-backup", fmt.Sprintf("DELETE /backup?backupID=%d answered %d", victim.id, st))
+					return
+				}
+			} else if err := nd.N.DeleteBackup(uint32(victim.id)); err != nil {
 				fail("delete-backup", fmt.Sprintf("DeleteBackup(%d) failed: %v", victim.id, err))
 				return
 			}
@@ -287,6 +318,31 @@ func runC16(c *lib.Ctx, id string, seed uint64) {
 	rl.add(nd, id, r.Range(1, 6), false)
 	total := len(rl.Events)
 	backupDir := filepath.Join(dir, "src", "n0", "db", "backups")
+	// `qed restore` without an id restores the LATEST backup: run the real command
+	if len(live) > 0 {
+		latest := live[len(live)-1]
+		rdir := filepath.Join(dir, "restore-latest")
+		dbdir := filepath.Join(rdir, "r0", "db")
+		os.MkdirAll(dbdir, 0755)
+		cliMu.Lock()
+		qedcmd.Root.SetArgs([]string{"restore", "--backup-dir", backupDir, "--restore-path", dbdir})
+		var cerr error
+		pan, msg := lib.Recover(func() { cerr = qedcmd.Root.Execute() })
+		cliMu.Unlock()
+		if pan || cerr != nil {
+			fail("restore-latest-failed", fmt.Sprintf("`qed restore` (latest) failed: %v %s", cerr, msg))
+		} else if st, err := rocks.NewRocksDBStore(dbdir, 0); err == nil {
+			b, berr := balloon.NewBalloon(st, HasherF)
+			if berr == nil {
+				if got := b.Version(); got != latest.version+1 {
+					fail("restore-latest-wrong-backup", fmt.Sprintf("`qed restore` without an id: the latest backup is #%d taken at version %d, but the restored log holds %d events", latest.id, latest.version, got))
+				}
+				b.Close()
+			}
+			st.Close()
+			c.Count("latest_restores_through_cli", 1)
+		}
+	}
 	// restore every live backup
 	for _, b := range live {
 		rdir := filepath.Join(dir, fmt.Sprintf("restore-%d", b.id))
